@@ -49,7 +49,7 @@ def ev_class(ev):
         return 'T_' + ev['t'].upper()
     return {'boot': 'BOOT', 'connOk': 'CONN_OK', 'connRefused': 'CONN_FAIL', 'tcpTimeout': 'CONN_FAIL',
             'connLost': 'CONN_LOST', 'tick': 'TICK', 'stop': 'STOP', 'start': 'START', 'rest': 'REST',
-            'data': ev.get('cls', 'DATA'), 'firedue': 'T_DUE', 'coop': 'COOP'}[k]
+            'data': ev.get('cls', 'DATA'), 'firedue': 'T_DUE', 'coop': 'COOP', 'enqueue': 'ENQUEUE'}[k]
 
 
 class Recorder(object):
